@@ -394,8 +394,13 @@ def d3(ctx, rep):
         val = lambda k: deref(ctx, *d[k])[1] if k in d else None
         rets = [n for n in walk_no_nested(isc.node) if isinstance(n, ast.Return) and n.value is not None]
         verdict = None
-        if keys is not None and len(rets) == 1 and isinstance(rets[0].value, ast.Compare) and len(rets[0].value.ops) == 1 and isinstance(rets[0].value.ops[0], ast.Eq):
-            l, r = rets[0].value.left, rets[0].value.comparators[0]
+        pred, negated = (rets[0].value if len(rets) == 1 else None), False
+        while isinstance(pred, ast.UnaryOp) and isinstance(pred.op, ast.Not):
+            pred, negated = pred.operand, not negated
+        if isinstance(pred, ast.Compare) and len(pred.ops) == 1 and isinstance(pred.ops[0], ast.NotEq):
+            negated = not negated
+        if keys is not None and len(rets) == 1 and isinstance(pred, ast.Compare) and len(pred.ops) == 1 and isinstance(pred.ops[0], (ast.Eq, ast.NotEq)):
+            l, r = pred.left, pred.comparators[0]
             kl, kr = _param_key(l, isc), _param_key(r, isc)
             if kl and kr:
                 verdict = (ast.dump(val(kl)) == ast.dump(val(kr))) if (kl in d and kr in d) else (False if (kl not in keys or kr not in keys) else None)
@@ -405,6 +410,8 @@ def d3(ctx, rep):
                 k = [x for x in ast.walk(l) if _param_key(x, isc)]
                 kk = _param_key(k[0], isc) if k else None
                 verdict = (_is_repeated_single(val(kk)) if kk in d else (False if kk not in keys else None)) if kk else None
+        if verdict is not None and negated:
+            verdict = not verdict
         if verdict is None:
             rep.undecided('D3.degenerate', isc, rets[0] if rets else isc.node.name, f'{c.name}: relation between _is_constant and _fit_constant not derivable',
                           construct=f'{c.name}._is_constant')
@@ -678,12 +685,52 @@ def _is_repeated_single(e):
     return isinstance(e, ast.BinOp) and isinstance(e.op, ast.Mult) and isinstance(e.left, ast.List) and len(e.left.elts) == 1
 
 
+def _accepts_valid_probabilities(ctx, rep, m, up):
+    """No raise of percent_point is reachable for a flat array of probabilities inside [0, 1] (a negated or one-sided range
+    guard refuses exactly the inputs the property quantifies over)."""
+    import re
+    from ..boolcond import Conds, atoms_of, satisfiable, show, substitute
+    prog = ctx.prog
+    cd = Conds(prog, m)
+    _normal, rs, _rets = cd.exits()
+    if not rs:
+        rep.ok('D4.quantile', m, m.node.name, 'percent_point has no refusal path of its own', construct='valid probabilities accepted')
+        return
+    u = re.escape(up)
+    env = {}
+    for st_, c_ in rs:
+        for k in atoms_of(c_):
+            t = k.replace(' ', '')
+            if re.search(rf'{u}(\[[^\]]*\])?>=?1(\.0)?(?![0-9.e-])', t) or re.search(rf'lt\[1(\.0)?\|.*{u}.*max', t) or re.search(rf'{u}(\[[^\]]*\])?<=?0(\.0)?(?![0-9.e-])', t) \
+                    or re.search(rf'lt\[.*{u}.*min.*\|0(\.0)?\]', t):
+                env[k] = False      # no probability above 1 / below 0
+            elif re.search(rf'lt\[1\|len\({u}\.shape\)\]', t) or re.search(rf'lt\[1\|{u}\.ndim\]', t):
+                env[k] = False      # a flat array
+            elif re.search(rf'lt\[(len\({u}\.shape\)|{u}\.ndim)\|1\]', t):
+                env[k] = False      # ndim < 1: not for an array
+            elif re.search(rf'eq\[1\|(len\({u}\.shape\)|{u}\.ndim)\]', t):
+                env[k] = True
+    for st_, c_ in rs:
+        left = substitute(c_, env)
+        if left is False or not satisfiable(left):
+            continue
+        free = sorted(atoms_of(left)) if left is not True else []
+        if not free:
+            rep.bad('D4.quantile', m, st_, f'`{short(st_, 60)}` is raised for a flat array of probabilities inside [0, 1] (condition `{show(c_)[:80]}`): '
+                    'valid probabilities are refused', construct='valid probabilities accepted')
+            return
+        rep.undecided('D4.quantile', m, st_, f'whether `{short(st_, 50)}` can be raised for valid probabilities depends on {free[:2]}', construct='valid probabilities accepted')
+        return
+    rep.ok('D4.quantile', m, m.node.name, 'no refusal is reachable for a flat array of probabilities inside [0, 1]', construct='valid probabilities accepted')
+
+
 def d4(ctx, rep):
     from ..idioms import resolve
     prog = ctx.prog
     kde = prog.cls(KDE)
     m = kde.methods['percent_point']
     up = m.params[1]
+    _accepts_valid_probabilities(ctx, rep, m, up)
     eps = lambda x: prog.resolve(m.module, x) == 'copulas.utils.EPSILON'
     one_minus_eps = lambda x: isinstance(x, ast.BinOp) and isinstance(x.op, ast.Sub) and const_value(x.left) in (1, 1.0) and eps(x.right)
     # masks are recognised by what they compute, not by their names
